@@ -14,7 +14,12 @@ package weshnet
 // The gate is a no-op unless the driver installed a hook AND the calling goroutine is one of the
 // driver's controlled request goroutines.
 
-import "sync/atomic"
+import (
+	"context"
+	"sync/atomic"
+
+	"github.com/ipfs/go-datastore"
+)
 
 var vfglHook atomic.Value // func(point string)
 
@@ -22,4 +27,18 @@ func vfglGate(point string) {
 	if h, ok := vfglHook.Load().(func(string)); ok && h != nil {
 		h(point)
 	}
+}
+
+// vfglGatedDS: what the copy of orbitdb_datastore_cache.go hands to go-orbit-db as a store's cache.  While vfglLibGateOn
+// is set (scripts with cfg.libgate: the log-loss demonstration) the write of "_localHeads" - which BaseStore.AddOperation
+// does right after oplog.Append, without any lock around the two - passes the gate "append" first.
+var vfglLibGateOn atomic.Bool
+
+type vfglGatedDS struct{ datastore.Datastore }
+
+func (g vfglGatedDS) Put(ctx context.Context, k datastore.Key, v []byte) error {
+	if vfglLibGateOn.Load() && k.Name() == "_localHeads" {
+		vfglGate("append")
+	}
+	return g.Datastore.Put(ctx, k, v)
 }
